@@ -315,6 +315,65 @@ Proof.
   rewrite K0, K1, K2. cbn [andb]. rewrite W1, W2. ring.
 Qed.
 
+(* the weights are the barycentric coordinates of the query point: they reproduce its location, so the value returned is
+   the height at (x, y) of the plane through the three stored vertices *)
+Theorem bary_point a b c x y w0 w1 w2 : bary a b c x y = Some (w0, w1, w2) ->
+  x == w0 * vx a + w1 * vx b + w2 * vx c /\ y == w0 * vy a + w1 * vy b + w2 * vy c.
+Proof.
+  unfold bary. destruct (Qeq_bool _ 0) eqn:E; [discriminate|].
+  assert (Hd : ~ det2 (vx b - vx a) (vy b - vy a) (vx c - vx a) (vy c - vy a) == 0)
+    by (intros K; apply Qeq_bool_iff in K; rewrite K in E; discriminate).
+  destruct (Qle_bool 0 _ && Qle_bool 0 _ && Qle_bool 0 _); [|discriminate].
+  intros H. injection H as <- <- <-. unfold det2 in *. split; field; exact Hd.
+Qed.
+
+(* exactness on affine height fields: if the three stored heights lie on a plane z = p x + q y + r, every query
+   inside the triangle returns the plane's height there *)
+Theorem tri_interp_affine a b c rest p q r x y :
+  vz a == p * vx a + q * vy a + r -> vz b == p * vx b + q * vy b + r -> vz c == p * vx c + q * vy c + r ->
+  bary a b c x y <> None -> tri_interp ((a, b, c) :: rest) x y == p * x + q * y + r.
+Proof.
+  intros Ha Hb Hc Hn. cbn [tri_interp]. destruct (bary a b c x y) as [[[w0 w1] w2]|] eqn:B; [|contradiction].
+  destruct (bary_point _ _ _ _ _ _ _ _ B) as [Hx Hy]. destruct (bary_weights _ _ _ _ _ _ _ _ B) as (_ & _ & _ & Hs).
+  rewrite Ha, Hb, Hc. rewrite Hx at 1. rewrite Hy at 1.
+  assert (E : r == (w0 + w1 + w2) * r) by (rewrite Hs; ring). rewrite E at 4. ring.
+Qed.
+
+(* the other two vertices of the first triangle: the stored height is returned there too *)
+Theorem tri_interp_vertex_b a b c rest :
+  ~ det2 (vx b - vx a) (vy b - vy a) (vx c - vx a) (vy c - vy a) == 0 ->
+  tri_interp ((a, b, c) :: rest) (vx b) (vy b) == vz b.
+Proof.
+  intros Hd. cbn [tri_interp]. unfold bary.
+  destruct (Qeq_bool (det2 (vx b - vx a) (vy b - vy a) (vx c - vx a) (vy c - vy a)) 0) eqn:E; [apply Qeq_bool_iff in E; contradiction|].
+  set (dd := det2 (vx b - vx a) (vy b - vy a) (vx c - vx a) (vy c - vy a)) in *.
+  assert (W1 : dd / dd == 1) by (field; exact Hd).
+  assert (W2 : det2 (vx b - vx a) (vy b - vy a) (vx b - vx a) (vy b - vy a) / dd == 0) by (unfold det2; field; exact Hd).
+  set (w1 := dd / dd) in *.
+  set (w2 := det2 (vx b - vx a) (vy b - vy a) (vx b - vx a) (vy b - vy a) / dd) in *.
+  assert (K0 : Qle_bool 0 (1 - w1 - w2) = true) by (apply Qle_bool_iff; lra).
+  assert (K1 : Qle_bool 0 w1 = true) by (apply Qle_bool_iff; lra).
+  assert (K2 : Qle_bool 0 w2 = true) by (apply Qle_bool_iff; lra).
+  rewrite K0, K1, K2. cbn [andb]. rewrite W1, W2. ring.
+Qed.
+
+Theorem tri_interp_vertex_c a b c rest :
+  ~ det2 (vx b - vx a) (vy b - vy a) (vx c - vx a) (vy c - vy a) == 0 ->
+  tri_interp ((a, b, c) :: rest) (vx c) (vy c) == vz c.
+Proof.
+  intros Hd. cbn [tri_interp]. unfold bary.
+  destruct (Qeq_bool (det2 (vx b - vx a) (vy b - vy a) (vx c - vx a) (vy c - vy a)) 0) eqn:E; [apply Qeq_bool_iff in E; contradiction|].
+  set (dd := det2 (vx b - vx a) (vy b - vy a) (vx c - vx a) (vy c - vy a)) in *.
+  assert (W1 : det2 (vx c - vx a) (vy c - vy a) (vx c - vx a) (vy c - vy a) / dd == 0) by (unfold det2; field; exact Hd).
+  assert (W2 : dd / dd == 1) by (field; exact Hd).
+  set (w1 := det2 (vx c - vx a) (vy c - vy a) (vx c - vx a) (vy c - vy a) / dd) in *.
+  set (w2 := dd / dd) in *.
+  assert (K0 : Qle_bool 0 (1 - w1 - w2) = true) by (apply Qle_bool_iff; lra).
+  assert (K1 : Qle_bool 0 w1 = true) by (apply Qle_bool_iff; lra).
+  assert (K2 : Qle_bool 0 w2 = true) by (apply Qle_bool_iff; lra).
+  rewrite K0, K1, K2. cbn [andb]. rewrite W1, W2. ring.
+Qed.
+
 (* ---------------- sample_path as a whole ---------------- *)
 Lemma subseq_Forall {A} (P : A -> Prop) l1 l2 : subseq l1 l2 -> Forall P l2 -> Forall P l1.
 Proof.
